@@ -449,3 +449,536 @@ Proof. unfold parse_string. destruct (lex uni s) as [toks|]; [apply parse_tokens
 
 Theorem parse_never_panics : forall uni s m, parse_string uni s <> Panic m.
 Proof. intros uni s m. apply np_neq. apply parse_string_np. Qed.
+
+(** * The evaluator: helpers that cannot panic *)
+Lemma spread_result_np res : np (spread_result res).
+Proof. unfold spread_result. np_crush. Qed.
+
+Lemma get_values_by_name_np name data : np (get_values_by_name name data).
+Proof. unfold get_values_by_name. cbv zeta. np_crush. Qed.
+
+Lemma do_ident_np name cur : np (do_ident name cur).
+Proof.
+  unfold do_ident. cbv zeta.
+  destruct (rv_v (deref1 (value_of cur))); try apply get_values_by_name_np.
+  destruct (map_lookup_fold name kvs); exact I.
+Qed.
+
+(** getAsStructOrSlice hands a []interface{} to the filter whenever it says "not a struct" *)
+Lemma get_as_struct_or_slice_false cur val :
+  get_as_struct_or_slice cur = Some (val, false) -> exists xs, val = VSlice EAny false xs.
+Proof.
+  unfold get_as_struct_or_slice. cbv zeta. intros H.
+  assert (G : forall r,
+    match rv_v r with
+    | VStruct _ | VDec _ => Some (rv_v r, true)
+    | VSlice t _ xs | VArray t xs =>
+      match xs with [] => Some (VSlice EAny false [], false) | _ => Some (VSlice EAny false xs, false) end
+    | _ => None
+    end = Some (val, false) -> exists xs, val = VSlice EAny false xs).
+  { intros r Hr. destruct (rv_v r) as [ |nm b|k nm z|i32 nm f|nm s|d|tg|t isnil xs|t xs|kt vt isnil kvs|fs|isnil|isnil];
+      try discriminate Hr; destruct xs as [|x xs]; inversion Hr; eauto. }
+  destruct cur as [ |nm b|k nm z|i32 nm f|nm s|d|tg|t isnil xs|t xs|kt vt isnil kvs|fs|isnil|isnil];
+    try (apply G in H; exact H).
+  destruct kt; destruct vt; try (apply G in H; exact H); discriminate H.
+Qed.
+
+(** * The guard: [recv_ok] at every run_func call the evaluation performs
+
+    Each combinator below mirrors the control flow of the evaluator's
+    combinator of the same name ([ev] is the evaluator for a child, [gd] the
+    guard for that child): a child is guarded exactly when it is evaluated. *)
+Fixpoint path_guard (ev : pathop -> gv -> outcome gv) (gd : pathop -> gv -> bool)
+    (prev : option pathop) (prior_nil : bool) (ops : list pathop) (data : gv) : bool :=
+  match ops with
+  | [] => true
+  | op :: rest =>
+    let blocked := match prev with
+                   | Some p => prior_nil && negb (pathop_qmark p) && negb (pathop_is_func op)
+                   | None => false
+                   end in
+    if blocked then true else
+    gd op data &&
+    match ev op data with
+    | Ok v => path_guard ev gd (Some op) (prior_nil || is_nil v) rest v
+    | Err EKeyNotFound => if pathop_qmark op then path_guard ev gd (Some op) true rest VNil else true
+    | _ => true
+    end
+  end.
+
+Fixpoint log_guard (ev : operand -> outcome gv) (gd : operand -> bool) (t : lot) (xs : list operand) : bool :=
+  match xs with
+  | [] => true
+  | x :: rest =>
+    gd x &&
+    match ev x with
+    | Ok (VBool false b) =>
+      match t with
+      | LAnd => if b then log_guard ev gd t rest else true
+      | LOr => if b then true else log_guard ev gd t rest
+      | LBad _ => log_guard ev gd t rest
+      end
+    | _ => true
+    end
+  end.
+
+(** filter_elems and select_elems: left to right, stopping at the first non-result *)
+Fixpoint seq_guard (ev : gv -> outcome gv) (gd : gv -> bool) (xs : list gv) : bool :=
+  match xs with
+  | [] => true
+  | x :: rest => gd x && match ev x with Ok _ => seq_guard ev gd rest | _ => true end
+  end.
+
+Definition param_guard (gd : node -> bool) (p : param) : bool :=
+  match p with FPPath q => gd (NPath q) | FPLog l => gd (NLog l) | _ => true end.
+
+Fixpoint params_guard (ev : node -> outcome gv) (gd : node -> bool) (ps : list param) : bool :=
+  match ps with
+  | [] => true
+  | p :: rest =>
+    param_guard gd p && match param_here ev p with Ok _ => params_guard ev gd rest | _ => true end
+  end.
+
+Lemma path_ops_np ev gd :
+  (forall o d, gd o d = true -> np (ev o d)) ->
+  forall ops prev pn data le,
+    path_guard ev gd prev pn ops data = true -> np (path_ops ev prev pn ops data le).
+Proof.
+  intros H ops; induction ops as [|op rest IH]; intros prev pn data le Hg;
+    cbn [path_ops path_guard] in *.
+  - destruct le; exact I.
+  - destruct (match prev with
+              | Some p => pn && negb (pathop_qmark p) && negb (pathop_is_func op)
+              | None => false
+              end); [exact I|].
+    apply andb_prop in Hg. destruct Hg as [Hg1 Hg2].
+    specialize (H _ _ Hg1).
+    destruct (ev op data) as [v|e|msg| |w]; try exact I.
+    + apply IH. exact Hg2.
+    + destruct e as [|tag]; [|exact I].
+      destruct (pathop_qmark op); [apply IH; exact Hg2|exact I].
+    + exact H.
+Qed.
+
+Lemma log_ops_np ev gd :
+  (forall x, gd x = true -> np (ev x)) ->
+  forall t xs, log_guard ev gd t xs = true -> np (log_ops ev t xs).
+Proof.
+  intros H t xs; induction xs as [|x rest IH]; intros Hg; cbn [log_ops log_guard] in *.
+  - destruct t; exact I.
+  - apply andb_prop in Hg. destruct Hg as [Hg1 Hg2].
+    specialize (H _ Hg1).
+    destruct (ev x) as [v|e|msg| |w]; cbn [bind]; try exact I; [|exact H].
+    destruct v as [ |nm b|k nm z|i32 nm f|nm s|d|tg|ty isnil ys|ty ys|kt vt isnil kvs|fs|isnil|isnil]; try exact I.
+    destruct nm; [exact I|].
+    destruct t as [| |s]; destruct b; try exact I; apply IH; exact Hg2.
+Qed.
+
+(** the predicate of a filter is a logical group, whose result is a Go bool *)
+Lemma filter_elems_np ev gd :
+  (forall x, gd x = true -> np (ev x)) ->
+  (forall x v, ev x = Ok v -> exists b, v = vbool b) ->
+  forall xs, seq_guard ev gd xs = true -> np (filter_elems ev xs).
+Proof.
+  intros H Hb xs; induction xs as [|x rest IH]; intros Hg; cbn [filter_elems seq_guard] in *;
+    [exact I|].
+  apply andb_prop in Hg. destruct Hg as [Hg1 Hg2].
+  specialize (H _ Hg1). specialize (Hb x).
+  destruct (ev x) as [v|e|msg| |w]; cbn [bind]; try exact I; [|exact H].
+  destruct (Hb v eq_refl) as [b ->]. unfold vbool.
+  apply np_bind; [apply IH; exact Hg2|]. intros ys _. exact I.
+Qed.
+
+Lemma select_elems_np ev gd :
+  (forall x, gd x = true -> np (ev x)) ->
+  forall xs, seq_guard ev gd xs = true -> np (select_elems ev xs).
+Proof.
+  intros H xs; induction xs as [|x rest IH]; intros Hg; cbn [select_elems seq_guard] in *;
+    [exact I|].
+  apply andb_prop in Hg. destruct Hg as [Hg1 Hg2].
+  specialize (H _ Hg1).
+  destruct (ev x) as [v|e|msg| |w]; cbn [bind]; try exact I; [|exact H].
+  apply np_bind; [apply IH; exact Hg2|]. intros ys _. exact I.
+Qed.
+
+Lemma param_here_np ev gd p :
+  (forall n, gd n = true -> np (ev n)) -> param_guard gd p = true -> np (param_here ev p).
+Proof.
+  intros H Hg. destruct p as [d|s|b|q|l]; cbn [param_here param_guard] in *; try exact I.
+  - apply np_bind; [apply H; exact Hg|]. intros res _. apply spread_result_np.
+  - apply np_bind; [apply H; exact Hg|]. intros res _. apply spread_result_np.
+Qed.
+
+Lemma eval_params_np ev gd :
+  (forall n, gd n = true -> np (ev n)) ->
+  forall ps, params_guard ev gd ps = true -> np (eval_params ev ps).
+Proof.
+  intros H ps; induction ps as [|p rest IH]; intros Hg; [exact I|].
+  rewrite eval_params_unfold. cbn [params_guard] in Hg.
+  apply andb_prop in Hg. destruct Hg as [Hg1 Hg2].
+  apply np_bind; [exact (param_here_np ev gd p H Hg1)|].
+  intros h Hh. rewrite Hh in Hg2.
+  apply np_bind; [apply IH; exact Hg2|]. intros more _. exact I.
+Qed.
+
+Section Guard.
+Variable uni : uclass.
+Variable eng : engines.
+
+(** [guard fuel n cur orig] follows [eval uni eng fuel n cur orig] and is true
+    iff every call [run_func eng ft ps val] made along the way satisfies
+    [recv_ok ft val]. *)
+Fixpoint guard (fuel : nat) (n : node) (cur orig : gv) : bool :=
+  match fuel with
+  | O => true
+  | S k =>
+    match n with
+    | NTop (TopP p) => guard k (NPath p) cur orig
+    | NTop (TopL l) => guard k (NLog l) cur orig
+    | NPath (Path _ root is_filter _ ops _) =>
+      if root && is_filter then true else
+      let data := if root then orig else cur in
+      let data := match ops with [] => convert_unless_string data | _ => data end in
+      path_guard (fun o d => eval uni eng k (NOp o) d orig) (fun o d => guard k (NOp o) d orig)
+                 None false ops data
+    | NOp (PIdent _ _ _) => true
+    | NOp (PFilter l _) =>
+      match get_as_struct_or_slice cur with
+      | None => true
+      | Some (val, true) => guard k (NLog l) val orig
+      | Some (val, false) =>
+        match val with
+        | VSlice _ _ xs =>
+          seq_guard (fun x => eval uni eng k (NLog l) x orig) (fun x => guard k (NLog l) x orig) xs
+        | _ => true
+        end
+      end
+    | NOp (PFunc f) => guard k (NFunc f) cur orig
+    | NLog (LogOp _ _ t xs _) =>
+      log_guard
+        (fun x => match x with
+                  | OpP p => eval uni eng k (NPath p) cur orig
+                  | OpL l => eval uni eng k (NLog l) cur orig
+                  end)
+        (fun x => match x with
+                  | OpP p => guard k (NPath p) cur orig
+                  | OpL l => guard k (NLog l) cur orig
+                  end) t xs
+    | NFunc (Func _ ft ps _) =>
+      params_guard (fun m => eval uni eng k m cur orig) (fun m => guard k m cur orig) ps &&
+      match eval_params (fun m => eval uni eng k m cur orig) ps with
+      | Ok rt =>
+        let val := convert_number cur in
+        match find_fdesc_key ft func_table with
+        | None => true
+        | Some d =>
+          if String.eqb (fd_key d) "Select" then
+            match params_first_string rt with
+            | Ok q =>
+              match parse_string uni q with
+              | Ok t =>
+                match rv_v (deref1 (value_of val)) with
+                | VSlice _ _ xs | VArray _ xs =>
+                  seq_guard (fun x => eval uni eng k (NTop t) x x) (fun x => guard k (NTop t) x x) xs
+                | VMap _ _ _ kvs =>
+                  match sorted_values kvs with
+                  | Some vs =>
+                    seq_guard (fun x => eval uni eng k (NTop t) x x) (fun x => guard k (NTop t) x x) vs
+                  | None => true
+                  end
+                | _ => true
+                end
+              | _ => true
+              end
+            | _ => true
+            end
+          else recv_ok (fd_key d) val
+        end
+      | _ => true
+      end
+    end
+  end.
+
+Lemma eval_np : forall fuel n cur orig,
+  guard fuel n cur orig = true -> np (eval uni eng fuel n cur orig).
+Proof.
+  induction fuel as [|k IH]; intros n cur orig Hg; [exact I|].
+  cbn [eval]. cbn [guard] in Hg.
+  destruct n as [p|o|f|l|t].
+  - destruct p as [inv root isf me ops us].
+    destruct (root && isf); [exact I|].
+    eapply path_ops_np; [|exact Hg]. intros o d Ho. apply IH. exact Ho.
+  - destruct o as [name q us|l us|f].
+    + apply do_ident_np.
+    + destruct (get_as_struct_or_slice cur) as [[val [|]]|] eqn:Eg; [ | |exact I].
+      * apply np_bind; [apply IH; exact Hg|]. intros res _. np_crush.
+      * destruct (get_as_struct_or_slice_false _ _ Eg) as [xs ->].
+        apply np_bind; [|intros ys _; exact I].
+        eapply filter_elems_np; [ | |exact Hg].
+        -- intros x Hx. apply IH. exact Hx.
+        -- intros x v Hv. eapply group_result_is_bool. exact Hv.
+    + apply IH. exact Hg.
+  - destruct f as [inv ft ps us].
+    apply andb_prop in Hg. destruct Hg as [Hg1 Hg2].
+    apply np_bind.
+    { eapply eval_params_np; [|exact Hg1]. intros m Hm. apply IH. exact Hm. }
+    intros rt Hrt. rewrite Hrt in Hg2. cbv zeta in *.
+    destruct (find_fdesc_key ft func_table) as [d|]; [|exact I].
+    destruct (String.eqb (fd_key d) "Select").
+    + apply np_bind; [apply params_first_string_np|]. intros q Hq. rewrite Hq in Hg2.
+      pose proof (parse_string_np uni q) as Hp.
+      destruct (parse_string uni q) as [t|e|msg| |w]; try exact I; [|exact Hp].
+      destruct (rv_v (deref1 (value_of (convert_number cur))))
+        as [ |nm b|kk nm z|i32 nm fl|nm s|dd|tg|ty isnil xs|ty xs|kt vt isnil kvs|fs|isnil|isnil];
+        try exact I.
+      * apply np_bind; [|intros rs _; exact I].
+        eapply select_elems_np; [|exact Hg2]. intros x Hx. apply IH. exact Hx.
+      * apply np_bind; [|intros rs _; exact I].
+        eapply select_elems_np; [|exact Hg2]. intros x Hx. apply IH. exact Hx.
+      * destruct (sorted_values kvs) as [vs|]; [|exact I].
+        apply np_bind; [|intros rs _; exact I].
+        eapply select_elems_np; [|exact Hg2]. intros x Hx. apply IH. exact Hx.
+    + apply run_func_np. exact Hg2.
+  - destruct l as [inv isf t xs us].
+    eapply log_ops_np; [|exact Hg]. intros x Hx. destruct x as [p|l]; apply IH; exact Hx.
+  - destruct t as [p|l]; apply IH; exact Hg.
+Qed.
+
+End Guard.
+
+(** * Main theorems *)
+Theorem eval_never_panics : forall uni eng fuel n cur orig m,
+  guard uni eng fuel n cur orig = true ->
+  eval uni eng fuel n cur orig <> Panic m.
+Proof. intros uni eng fuel n cur orig m Hg. apply np_neq. apply eval_np. exact Hg. Qed.
+
+Corollary do_top_never_panics : forall uni eng t data m,
+  guard uni eng default_fuel (NTop t) data data = true ->
+  do_top uni eng t data <> Panic m.
+Proof. intros uni eng t data m Hg. unfold do_top. apply eval_never_panics. exact Hg. Qed.
+
+(** * The guard on concrete, non-trivial evaluations
+    (Index, Left, TrimRight, Select and a filter over a map of slices) *)
+Definition ex_data : gv :=
+  VMap KtStr EAny false
+    [ (VStr false (bs "a"), VSlice EAny false [VInt KInt false 10; VInt KInt false 20; VInt KInt false 30]);
+      (VStr false (bs "s"), VStr false (bs "hello world"));
+      (VStr false (bs "rows"), VSlice EAny false
+         [ VMap KtStr EAny false [(VStr false (bs "v"), VSlice EAny false [VInt KInt false 1; VInt KInt false 2])];
+           VMap KtStr EAny false [(VStr false (bs "v"), VSlice EAny false [VInt KInt false 3])] ]) ].
+
+Definition ex_run (q : string) : option (bool * outcome gv) :=
+  match parse_string uni_ascii (bs q) with
+  | Ok t => Some (guard uni_ascii no_engines default_fuel (NTop t) ex_data ex_data,
+                  do_top uni_ascii no_engines t ex_data)
+  | _ => None
+  end.
+
+Example guard_ex_index :
+  ex_run "$.a.Index(1)" = Some (true, Ok (VDec (mkDec 20 0))).
+Proof. vm_compute. reflexivity. Qed.
+
+Example guard_ex_string_parts :
+  ex_run "$.s.Left(5).TrimRight(1)" = Some (true, Ok (VStr false (bs "hell"))).
+Proof. vm_compute. reflexivity. Qed.
+
+Example guard_ex_select_index :
+  ex_run "$.rows.Select(""@.v"").Index(2)" = Some (true, Ok (VDec (mkDec 3 0))).
+Proof. vm_compute. reflexivity. Qed.
+
+Example guard_ex_filter :
+  option_map fst (ex_run "$.rows[@.v.Index(0).Less(2)].Select(""@.v"").Last()") = Some true.
+Proof. vm_compute. reflexivity. Qed.
+
+Example guard_ex_no_panic : forall m,
+  match parse_string uni_ascii (bs "$.rows.Select(""@.v"").Index(2)") with
+  | Ok t => do_top uni_ascii no_engines t ex_data <> Panic m
+  | _ => False
+  end.
+Proof.
+  intros m.
+  destruct (parse_string uni_ascii (bs "$.rows.Select(""@.v"").Index(2)")) as [t|e|msg| |w] eqn:E;
+    try (vm_compute in E; discriminate E).
+  apply do_top_never_panics.
+  vm_compute in E. injection E as <-. vm_compute. reflexivity.
+Qed.
+
+(** The same for the evaluator: the statement without [guard] is false. *)
+Lemma eval_index_call uni eng p x xs orig :
+  eval uni eng 1 (NFunc (Func false (bs "Index") [FPNum p] [])) (VSlice EAny false (x :: xs)) orig
+  = func_index [RNum p] (VSlice EAny false (x :: xs)).
+Proof. reflexivity. Qed.
+
+Theorem eval_unguarded_statement_is_false :
+  ~ (forall uni eng fuel n cur orig m, eval uni eng fuel n cur orig <> Panic m).
+Proof.
+  intros Hall.
+  set (N := Z.to_nat (2 ^ 63 + 1)).
+  assert (HN : Z.of_nat N = 2 ^ 63 + 1) by (apply Z2Nat.id; vm_compute; discriminate).
+  clearbody N.
+  destruct N as [|N]; [vm_compute in HN; discriminate HN|].
+  apply (Hall uni_ascii no_engines 1%nat
+              (NFunc (Func false (bs "Index") [FPNum (mkDec (2 ^ 63) 0)] []))
+              (VSlice EAny false (VNil :: repeat VNil N)) VNil
+              "reflect: slice index out of range"%string).
+  rewrite eval_index_call.
+  apply func_index_huge.
+  cbn [length]. rewrite repeat_length. exact HN.
+Qed.
+
+(** * Unconditionally, for queries that name none of the six functions
+    A query in which no function is Index, Left, Right, TrimLeft, TrimRight or
+    Select (Select re-parses a query text computed at run time, which may name
+    any function) passes the guard on every input. *)
+Definition risky_names : list string :=
+  ["Index"; "Left"; "Right"; "TrimLeft"; "TrimRight"; "Select"]%string.
+Definition risky_name (ft : str) : bool := existsb (fun k => str_eqb (bs k) ft) risky_names.
+
+Fixpoint plain_path (p : path) : bool :=
+  match p with Path _ _ _ _ ops _ => forallb plain_op ops end
+with plain_op (o : pathop) : bool :=
+  match o with PIdent _ _ _ => true | PFilter l _ => plain_log l | PFunc f => plain_func f end
+with plain_func (f : func) : bool :=
+  match f with Func _ ft ps _ => negb (risky_name ft) && forallb plain_param ps end
+with plain_param (p : param) : bool :=
+  match p with FPPath q => plain_path q | FPLog l => plain_log l | _ => true end
+with plain_log (l : logop) : bool :=
+  match l with LogOp _ _ _ xs _ => forallb plain_operand xs end
+with plain_operand (x : operand) : bool :=
+  match x with OpP p => plain_path p | OpL l => plain_log l end.
+
+Definition plain_node (n : node) : bool :=
+  match n with
+  | NPath p => plain_path p
+  | NOp o => plain_op o
+  | NFunc f => plain_func f
+  | NLog l => plain_log l
+  | NTop (TopP p) => plain_path p
+  | NTop (TopL l) => plain_log l
+  end.
+
+Lemma plain_path_eq a b c d ops us : plain_path (Path a b c d ops us) = forallb plain_op ops.
+Proof. reflexivity. Qed.
+Lemma plain_func_eq a ft ps us :
+  plain_func (Func a ft ps us) = negb (risky_name ft) && forallb plain_param ps.
+Proof. reflexivity. Qed.
+Lemma plain_log_eq a b t xs us : plain_log (LogOp a b t xs us) = forallb plain_operand xs.
+Proof. reflexivity. Qed.
+
+Lemma table_lookup_safe ft d :
+  find_fdesc_key ft func_table = Some d -> risky_name ft = false ->
+  String.eqb (fd_key d) "Select" = false /\ indexing_func (fd_key d) = false.
+Proof.
+  unfold func_table. cbn [find_fdesc_key fd_key]. intros H R.
+  unfold risky_name, risky_names in R. cbn [existsb] in R.
+  repeat match type of R with
+         | (_ || _) = false => apply orb_false_elim in R; let R1 := fresh "R" in destruct R as [R1 R]
+         end.
+  repeat match type of H with
+         | (if str_eqb ?k ft then _ else _) = Some d =>
+           let E := fresh "E" in
+           destruct (str_eqb k ft) eqn:E;
+           [ first [ congruence | injection H as <-; split; reflexivity ] | ]
+         end.
+  discriminate H.
+Qed.
+
+Lemma path_guard_true ev gd ops :
+  (forall o d, In o ops -> gd o d = true) ->
+  forall prev pn data, path_guard ev gd prev pn ops data = true.
+Proof.
+  induction ops as [|op rest IH]; intros H prev pn data; cbn [path_guard]; [reflexivity|].
+  destruct (match prev with
+            | Some p => pn && negb (pathop_qmark p) && negb (pathop_is_func op)
+            | None => false
+            end); [reflexivity|].
+  rewrite (H op data (or_introl eq_refl)). cbn [andb].
+  assert (IH' := IH (fun o d Hin => H o d (or_intror Hin))).
+  destruct (ev op data) as [v|e|msg| |w]; try reflexivity; [apply IH'|].
+  destruct e as [|tag]; [|reflexivity].
+  destruct (pathop_qmark op); [apply IH'|reflexivity].
+Qed.
+
+Lemma log_guard_true ev gd t xs :
+  (forall x, In x xs -> gd x = true) -> log_guard ev gd t xs = true.
+Proof.
+  induction xs as [|x rest IH]; intros H; cbn [log_guard]; [reflexivity|].
+  rewrite (H x (or_introl eq_refl)). cbn [andb].
+  assert (IH' := IH (fun y Hin => H y (or_intror Hin))).
+  destruct (ev x) as [v|e|msg| |w]; try reflexivity.
+  destruct v as [ |nm b|k nm z|i32 nm f|nm s|d|tg|ty isnil ys|ty ys|kt vt isnil kvs|fs|isnil|isnil]; try reflexivity.
+  destruct nm; [reflexivity|].
+  destruct t as [| |s]; destruct b; try reflexivity; exact IH'.
+Qed.
+
+Lemma seq_guard_true ev gd xs : (forall x, gd x = true) -> seq_guard ev gd xs = true.
+Proof.
+  intros H. induction xs as [|x rest IH]; cbn [seq_guard]; [reflexivity|].
+  rewrite (H x). cbn [andb]. destruct (ev x); try reflexivity. exact IH.
+Qed.
+
+Lemma params_guard_true ev gd ps :
+  (forall p, In p ps -> param_guard gd p = true) -> params_guard ev gd ps = true.
+Proof.
+  induction ps as [|p rest IH]; intros H; cbn [params_guard]; [reflexivity|].
+  rewrite (H p (or_introl eq_refl)). cbn [andb].
+  destruct (param_here ev p); try reflexivity.
+  apply IH. intros q Hin. apply H. right. exact Hin.
+Qed.
+
+Lemma plain_guard uni eng : forall fuel n cur orig,
+  plain_node n = true -> guard uni eng fuel n cur orig = true.
+Proof.
+  induction fuel as [|k IH]; intros n cur orig Hp; [reflexivity|].
+  cbn [guard]. destruct n as [p|o|f|l|t]; cbn [plain_node] in Hp.
+  - destruct p as [inv root isf me ops us]. rewrite plain_path_eq in Hp.
+    destruct (root && isf); [reflexivity|].
+    apply path_guard_true. intros o d Hin. apply IH.
+    rewrite forallb_forall in Hp. exact (Hp o Hin).
+  - destruct o as [name q us|l us|f].
+    + reflexivity.
+    + change (plain_log l = true) in Hp.
+      destruct (get_as_struct_or_slice cur) as [[val [|]]|]; [ | |reflexivity].
+      * apply IH. exact Hp.
+      * destruct val; try reflexivity. apply seq_guard_true. intros x. apply IH. exact Hp.
+    + change (plain_func f = true) in Hp. apply IH. exact Hp.
+  - destruct f as [inv ft ps us]. rewrite plain_func_eq in Hp.
+    apply andb_prop in Hp. destruct Hp as [Hr Hps]. apply negb_true_iff in Hr.
+    rewrite forallb_forall in Hps.
+    apply andb_true_intro. split.
+    + apply params_guard_true. intros p Hin. specialize (Hps p Hin).
+      destruct p as [d|s|b|q|l]; cbn [param_guard]; try reflexivity; apply IH; exact Hps.
+    + destruct (eval_params (fun m => eval uni eng k m cur orig) ps) as [rt|e|msg| |w]; try reflexivity.
+      cbv zeta.
+      destruct (find_fdesc_key ft func_table) as [d|] eqn:Ef; [|reflexivity].
+      destruct (table_lookup_safe ft d Ef Hr) as [Hs Hi].
+      rewrite Hs. apply recv_ok_other. exact Hi.
+  - destruct l as [inv isf t xs us]. rewrite plain_log_eq in Hp.
+    rewrite forallb_forall in Hp.
+    apply log_guard_true. intros x Hin. specialize (Hp x Hin).
+    destruct x as [p|l]; apply IH; exact Hp.
+  - destruct t as [p|l]; apply IH; exact Hp.
+Qed.
+
+Theorem eval_never_panics_plain : forall uni eng fuel n cur orig m,
+  plain_node n = true -> eval uni eng fuel n cur orig <> Panic m.
+Proof.
+  intros uni eng fuel n cur orig m Hp. apply eval_never_panics. apply plain_guard. exact Hp.
+Qed.
+
+Corollary do_top_never_panics_plain : forall uni eng t data m,
+  plain_node (NTop t) = true -> do_top uni eng t data <> Panic m.
+Proof.
+  intros uni eng t data m Hp. apply do_top_never_panics. apply plain_guard. exact Hp.
+Qed.
+
+Print Assumptions eval_never_panics.
+Print Assumptions do_top_never_panics.
+Print Assumptions parse_never_panics.
+Print Assumptions run_func_never_panics.
+Print Assumptions run_func_never_panics_other.
+Print Assumptions eval_never_panics_plain.
+Print Assumptions do_top_never_panics_plain.
+Print Assumptions unguarded_statement_is_false.
+Print Assumptions eval_unguarded_statement_is_false.
+Print Assumptions guard_ex_no_panic.
